@@ -51,7 +51,7 @@ Qed.
 Definition no_lf (cs : list Z) : Prop := has_lf cs = false.
 
 Lemma no_lf_cons c cs : no_lf (c :: cs) -> (c =? 10) = false /\ no_lf cs.
-Proof. unfold no_lf, has_lf. simpl. rewrite Z.eqb_sym. destruct (c =? 10); simpl; intros H; [discriminate | auto]. Qed.
+Proof. unfold no_lf, has_lf. cbn [existsb]. rewrite Z.eqb_sym. destruct (c =? 10); cbn [orb]; intros H; [discriminate | auto]. Qed.
 
 (* sum of the advances StrWidth adds up (CR included) *)
 Fixpoint adv_sum (t : tstate) (cs : list Z) : Z :=
@@ -122,20 +122,21 @@ Lemma cell_val_scale t c h v x y x1 y1 a b :
   cell_val t c (tcol t) (tbg t) h v x y a b =
   cell_val (with_size t 1 1) c (tcol t) (tbg t) 1 1 x1 y1 (x1 + (a - x) / h) (y1 + (b - y) / v).
 Proof.
-  intros Hh Hv. unfold cell_val, in_rect.
+  intros Hh Hv. unfold cell_val.
   change (char_width (with_size t 1 1) c) with (char_width t c).
   change (tfont (with_size t 1 1)) with (tfont t).
+  change (glyph_val (with_size t 1 1) c) with (glyph_val t c).
   pose proof (char_width_nonneg t c) as Hw. pose proof (font_bbh_pos (tfont t)) as Hb.
-  rewrite <- !andb_assoc. rewrite andb_assoc.
-  rewrite (div_window a x (char_width t c) h Hh Hw).
-  replace ((y <=? b) && (b <? y + font_bbh (tfont t) * v)) with ((0 <=? (b - y) / v) && ((b - y) / v <? font_bbh (tfont t)))
-    by (symmetry; apply div_window; lia).
-  replace (x1 + (a - x) / h - x1) with ((a - x) / h) by lia.
-  replace (y1 + (b - y) / v - y1) with ((b - y) / v) by lia.
-  rewrite !Z.div_1_r.
-  replace ((x1 <=? x1 + (a - x) / h) && (x1 + (a - x) / h <? x1 + char_width t c * 1)) with ((0 <=? (a - x) / h) && ((a - x) / h <? char_width t c)) by lia.
-  replace ((y1 <=? y1 + (b - y) / v) && (y1 + (b - y) / v <? y1 + font_bbh (tfont t) * 1)) with ((0 <=? (b - y) / v) && ((b - y) / v <? font_bbh (tfont t))) by lia.
-  reflexivity.
+  set (w := char_width t c) in *. set (bbh := font_bbh (tfont t)) in *.
+  set (i := (a - x) / h). set (j := (b - y) / v).
+  assert (E1 : in_rect x y (w * h) (bbh * v) a b = ((0 <=? i) && (i <? w) && ((0 <=? j) && (j <? bbh)))).
+  { unfold in_rect. rewrite <- andb_assoc.
+    rewrite (div_window a x w h), (div_window b y bbh v) by lia. reflexivity. }
+  assert (E2 : in_rect x1 y1 (w * 1) (bbh * 1) (x1 + i) (y1 + j) = ((0 <=? i) && (i <? w) && ((0 <=? j) && (j <? bbh)))).
+  { unfold in_rect. lia. }
+  rewrite E1, E2.
+  replace (x1 + i - x1) with i by lia. replace (y1 + j - y1) with j by lia.
+  rewrite !Z.div_1_r. reflexivity.
 Qed.
 
 (* whole-string scaling about (cx, cy), character spacing 0 *)
@@ -156,9 +157,8 @@ Proof.
   change (tsv (with_size t 1 1)) with 1.
   rewrite (cell_val_scale t c (tsh t) (tsv t) _ cy x cy a b Hh Hv).
   f_equal.
-  - replace (a - (cx + (x - cx) * tsh t)) with ((a - cx) + (- (x - cx)) * tsh t) by lia.
-    rewrite Z.div_add by lia. lia.
-  - rewrite Z.sub_diag. simpl. lia.
+  replace (a - (cx + (x - cx) * tsh t)) with ((a - cx) + (- (x - cx)) * tsh t) by lia.
+  rewrite Z.div_add by lia. lia.
 Qed.
 
 Lemma text_val_nodrawn t cs : drawn cs = [] -> forall x y a b, text_val t cs x y a b = None.
